@@ -131,6 +131,141 @@ Proof.
 Qed.
 Print Assumptions C09_design_names_unique_partial.
 
+(* =====================================================================================================
+   Number-like parameter values (h.Scalar / h.Prefixed / Decimal fields).  Model/ParamName.v distinguishes the value
+   as WRITTEN (level 1), as HELD by the validated paramclass instance (level 2: a Prefixed keeps its digits and its
+   prefix, `VPrefW`) and the CACHE KEY (level 3: the normal form (c, e) of the exact value, `VPref`).  The theorems
+   1-12 above are about keys; 13-15 show that the key equality (Leibniz) IS the implementation's: the dict lookup of
+   the generator cache (hash equal and ==) for all values, and == alone when no Prefixed number has more than
+   EPSILON = 20 decimal places (== is then exact; beyond, == tolerates differences the hash does not, witness 20).
+   ===================================================================================================== *)
+
+(* 13. the cache key is the dict key: the lookup (hashes agree and the instances compare equal) succeeds for the
+       validated instances of two calls exactly when the calls have the same key.  ALL values. *)
+Theorem C09_key_is_dict_lookup fs a1 a2 v1 v2 : validate_args fs a1 = Ok v1 -> validate_args fs a2 = Ok v2 ->
+  (lookup_hit v1 v2 = true <-> norm_args fs a1 = norm_args fs a2).
+Proof. exact (key_is_lookup fs a1 a2 v1 v2). Qed.
+Print Assumptions C09_key_is_dict_lookup.
+
+(* 14. name_value_only, keys: parameter instances that compare equal (params __eq__: Prefixed by value through
+       Prefixed.__eq__, Decimal by value, nested classes field by field) have the same key, and conversely *)
+Theorem C09_key_is_eq fs a1 a2 v1 v2 : validate_args fs a1 = Ok v1 -> validate_args fs a2 = Ok v2 ->
+  fine_all v1 = true -> fine_all v2 = true ->
+  (insts_eqb v1 v2 = true <-> norm_args fs a1 = norm_args fs a2).
+Proof. exact (key_is_eq fs a1 a2 v1 v2). Qed.
+Print Assumptions C09_key_is_eq.
+
+(* 15. name_value_only, histories: two calls of one generator whose parameter instances compare equal - however the
+       numbers were written: other prefix, trailing zeros, int / float / str / Decimal - return the identical module in
+       every history (hence, by 5 and 6, under one name which no history can change) *)
+Theorem C09_equal_params_same_module U T suffix fuel ks st ms g G a1 a2 v1 v2 k1 k2 i j mi mj :
+  nth_error U g = Some G ->
+  validate_args (g_fields G) a1 = Ok v1 -> validate_args (g_fields G) a2 = Ok v2 ->
+  fine_all v1 = true -> fine_all v2 = true -> insts_eqb v1 v2 = true ->
+  mk_key U (g, a1) = Ok k1 -> mk_key U (g, a2) = Ok k2 ->
+  run_hist key_eqb (prog_of U T) (gen_name_of U) (has_params_of U) suffix fuel ks = Ok (st, ms) ->
+  nth_error ks i = Some k1 -> nth_error ks j = Some k2 ->
+  nth_error ms i = Some mi -> nth_error ms j = Some mj -> k1 = k2 /\ mi = mj.
+Proof.
+  intros HG V1 V2 F1 F2 E K1 K2 H I J Mi Mj.
+  assert (k1 = k2) as ->.
+  { pose proof (proj1 (key_is_eq _ _ _ _ _ V1 V2 F1 F2) E) as N.
+    rewrite (mk_key_of_args U g G a1 a2 HG N) in K1. congruence. }
+  split; [reflexivity|].
+  exact (memo_same key key_eqb key_eqb_eq _ _ _ _ fuel ks st ms i j k2 mi mj H I J Mi Mj).
+Qed.
+Print Assumptions C09_equal_params_same_module.
+
+(* 16. the canonical rendering of a number (params.py:_value_name) is injective on normal forms ... *)
+Theorem C09_value_text_injective c e c' e' : canon_str c e = canon_str c' e' -> c = c' /\ e = e'.
+Proof. exact (canon_str_inj c e c' e'). Qed.
+Print Assumptions C09_value_text_injective.
+
+(* 17. ... so that what the repaired encoder writes for a prefixed number / a decimal depends on its exact VALUE only
+       and determines it: equal values (any digits, any prefix) - equal text; unequal values - different text *)
+Theorem C09_prefixed_text_by_value x q y r :
+  encode_inst (VPrefW x q) = encode_inst (VPrefW y r) <-> Dec.deqb (pvalue x q) (pvalue y r) = true.
+Proof. exact (encode_inst_pref_iff x q y r). Qed.
+Theorem C09_decimal_text_by_value x y : encode_inst (VDecW x) = encode_inst (VDecW y) <-> Dec.deqb x y = true.
+Proof. exact (encode_inst_dec_iff x y). Qed.
+Print Assumptions C09_prefixed_text_by_value.
+Print Assumptions C09_decimal_text_by_value.
+
+(* 18. the hashed form: the JSON VALUE that is serialised and hashed (hdl21_naming_encoder applied through the whole
+       parameter set: nested classes, Literal, Prefixed, Decimal, enum members, object references) determines the
+       parameter set - no premise *)
+Theorem C09_json_value_injective fs vs ws :
+  typed_all (map f_dtype fs) vs = true -> typed_all (map f_dtype fs) ws = true -> json_tree fs vs = json_tree fs ws -> vs = ws.
+Proof. exact (json_tree_inj fs vs ws). Qed.
+Print Assumptions C09_json_value_injective.
+
+(* 19. PARTIAL, with weaker premises than 11 / 12: only the TEXT serialisation of the encoded value (json.dumps) and
+       md5 remain premises; the encoder itself is modelled (18).
+       FULL STATEMENT WANTED: as in 11 / 12 with the real json.dumps and md5. *)
+Theorem C09_name_injective_tree_partial
+  (md5hex : string -> string) (dumps : jv -> string)
+  (md5_collision_free : forall a b, md5hex a = md5hex b -> a = b)
+  (md5_hex : forall a, has_char "="%char (md5hex a) = false)
+  (dumps_faithful : forall fs vs ws, typed_all (map f_dtype fs) vs = true -> typed_all (map f_dtype fs) ws = true ->
+                                     dumps (json_tree fs vs) = dumps (json_tree fs ws) -> json_tree fs vs = json_tree fs ws)
+  fs vs ws s : fs <> [] ->
+  suffix_str md5hex (json_text dumps) fs vs = Ok s -> suffix_str md5hex (json_text dumps) fs ws = Ok s -> vs = ws.
+Proof. exact (suffix_injective_tree md5hex dumps md5_collision_free md5_hex dumps_faithful fs vs ws s). Qed.
+Print Assumptions C09_name_injective_tree_partial.
+
+Theorem C09_design_names_unique_tree_partial
+  (md5hex : string -> string) (dumps : jv -> string)
+  (md5_collision_free : forall a b, md5hex a = md5hex b -> a = b)
+  (md5_hex : forall a, has_char "="%char (md5hex a) = false)
+  (dumps_faithful : forall fs vs ws, typed_all (map f_dtype fs) vs = true -> typed_all (map f_dtype fs) ws = true ->
+                                     dumps (json_tree fs vs) = dumps (json_tree fs ws) -> json_tree fs vs = json_tree fs ws)
+  Un Tn fuel ks st ms m1 m2 g1 g2 :
+  run_hist_h md5hex (json_text dumps) Un Tn fuel ks = Ok (st, ms) ->
+  creators_ok Un Tn (map m_creator (heap st)) ->
+  nth_error (heap st) m1 = Some g1 -> nth_error (heap st) m2 = Some g2 -> m_name g1 = m_name g2 -> m1 = m2.
+Proof.
+  exact (design_names_unique_tree md5hex dumps md5_collision_free md5_hex dumps_faithful Un Tn fuel ks st ms m1 m2 g1 g2).
+Qed.
+Print Assumptions C09_design_names_unique_tree_partial.
+
+(* 20. REFUTED for the pinned / pre-repair encoder: `2*K` and `2000*UNIT` are equal (==, same hash, same key - one
+       generator call, one module) and are written differently, {"number": 2, "prefix": 3} against
+       {"number": 2000, "prefix": 0}: the module's name was the digest of whichever spelling was called first
+       (G(57caa459a4e1295de2eea10725b1e9f7) against G(96ededbb987fc6a745073904d908015c) on the implementation).
+       The repaired encoder writes one text for both. *)
+Definition ex_2K : Dec.dec * Z := (Dec.mkDec false 2 0, 3).
+Definition ex_2000 : Dec.dec * Z := (Dec.mkDec false 2000 0, 0).
+Theorem C09_pinned_encoder_name_by_spelling_refuted :
+  exists a b ja jb,
+    inst_eqb (VPrefW (fst a) (snd a)) (VPrefW (fst b) (snd b)) = true /\
+    hash_eqb (VPrefW (fst a) (snd a)) (VPrefW (fst b) (snd b)) = true /\
+    ParamName.norm DScalar (VPrefW (fst a) (snd a)) = ParamName.norm DScalar (VPrefW (fst b) (snd b)) /\
+    encode_pref_pinned (fst a) (snd a) = Some ja /\ encode_pref_pinned (fst b) (snd b) = Some jb /\ ja <> jb /\
+    encode_inst (VPrefW (fst a) (snd a)) = encode_inst (VPrefW (fst b) (snd b)).
+Proof.
+  exists ex_2K, ex_2000. eexists. eexists. repeat split; try (vm_compute; reflexivity). vm_compute. discriminate.
+Qed.
+Print Assumptions C09_pinned_encoder_name_by_spelling_refuted.
+
+(* 20b. REFUTED for the pre-repair naming of floats: -0.0 and 0.0 are equal (==, same hash: one call, one module) and
+        str() / json.dumps write them differently, so the readable name `f=-0.0` / `f=0.0` (and likewise the digest) was
+        that of whichever was called first.  The repaired code names both as 0.0 (params.py:_named_value): one key. *)
+Theorem C09_negative_zero_named_by_spelling_refuted :
+  exists a b, valid DFloat a = true /\ valid DFloat b = true /\ inst_eqb a b = true /\ hash_eqb a b = true /\
+              render a <> render b /\
+              ParamName.norm DFloat a = ParamName.norm DFloat b /\ ParamName.norm DFloat a = Ok (VFloat "0.0").
+Proof. exists (VFloat "-0.0"), (VFloat "0.0"). repeat split; try (vm_compute; reflexivity). vm_compute. discriminate. Qed.
+Print Assumptions C09_negative_zero_named_by_spelling_refuted.
+
+(* 21. why 14 / 15 need the 20-places condition: 1E-21 and 0 compare equal (Prefixed.__eq__ rounds to 20 places)
+       without being equal; their hashes differ, so the dict lookup misses: two calls, two keys, two modules, two
+       names (13 still holds) *)
+Example C09_tolerance_witness :
+  let a := VPrefW (Dec.mkDec false 1 (-21)) 0 in let b := VPrefW (Dec.mkDec false 0 0) 0 in
+  inst_eqb a b = true /\ fine a = false /\ hash_eqb a b = false /\ lookup_hit [a] [b] = false /\ canon a <> canon b /\
+  encode_inst a <> encode_inst b.
+Proof. repeat split; try (vm_compute; reflexivity); vm_compute; discriminate. Qed.
+
 (* ---------- non-vacuity and witnesses ---------- *)
 Definition ex_fs : list field :=
   [ {| f_name := "a"; f_dtype := DStr; f_default := None |}; {| f_name := "b"; f_dtype := DStr; f_default := None |} ].
@@ -208,3 +343,49 @@ Proof.
   - intros c1 c2 [<-|[<-|[]]] [<-|[<-|[]]] _; reflexivity.
   - intros c [<-|[<-|[]]]; reflexivity.
 Qed.
+
+(* ---------- non-vacuity of 13 - 19 ---------- *)
+Definition ex_sfs : list field :=
+  [ {| f_name := "r"; f_dtype := DScalar; f_default := Some (VPrefW (Dec.mkDec false 1 0) 3) |};
+    {| f_name := "d"; f_dtype := DDec; f_default := Some (VInt 1) |};
+    {| f_name := "n"; f_dtype := DRec [DOpt DScalar; DInt]; f_default := None |} ].
+
+(* 2*K, 2000 (int), "2.000e3" (str), 2000.0 (float), Prefixed(2000000, MILLI): one key; 2001 another one *)
+Example C09_ex_scalar_keys :
+  let nested := Some (VRec [VStr " 5_0 "; VBool true]) in
+  let k a := norm_args ex_sfs [Some a; Some (VStr "2.50"); nested] in
+  k (VPrefW (Dec.mkDec false 2 0) 3) = Ok [VPref 2 3; VDec 25 (-1); VRec [VPref 5 1; VInt 1]] /\
+  k (VInt 2000) = k (VPrefW (Dec.mkDec false 2 0) 3) /\ k (VStr "2.000e3") = k (VInt 2000) /\
+  k (VFloat "2000.0") = k (VInt 2000) /\ k (VPrefW (Dec.mkDec false 2000000 0) (-3)) = k (VInt 2000) /\
+  k (VInt 2001) <> k (VInt 2000) /\
+  norm_args ex_sfs [None; None; Some (VRec [VStr "w/5"; VInt 0])] = Ok [VPref 1 3; VDec 1 0; VRec [VLit "w/5"; VInt 0]].
+Proof. repeat split; try (vm_compute; reflexivity). vm_compute. discriminate. Qed.
+
+(* hypotheses of 13 / 14 / 15 on a non-trivial pair: validated, fine, == *)
+Example C09_ex_eq_hypotheses :
+  let a1 := [Some (VPrefW (Dec.mkDec false 2 0) 3); Some (VStr "2.50"); Some (VRec [VNone; VInt 7])] in
+  let a2 := [Some (VStr "2.000e3"); Some (VFloat "2.5"); Some (VRec [VNone; VInt 7])] in
+  match validate_args ex_sfs a1, validate_args ex_sfs a2 with
+  | Ok v1, Ok v2 => v1 <> v2 /\ fine_all v1 = true /\ fine_all v2 = true /\ insts_eqb v1 v2 = true /\ lookup_hit v1 v2 = true
+  | _, _ => False
+  end.
+Proof. vm_compute. repeat split. discriminate. Qed.
+
+Example C09_ex_json_tree :
+  json_tree ex_sfs [VPref 2 3; VDec 25 (-1); VRec [VLit "w/5"; VInt 0]] =
+  JObj [("r", JObj [("prefixed", JStr "2e3")]); ("d", JObj [("decimal", JStr "25e-1")]);
+        ("n", JObj [("0", JObj [("text", JStr "w/5")]); ("1", JInt 0)])].
+Proof. vm_compute. reflexivity. Qed.
+
+Example C09_ex_value_text : canon_str 2 3 = "2e3" /\ canon_str (-15) (-1) = "-15e-1" /\ canon_str 0 0 = "0e0".
+Proof. repeat split; vm_compute; reflexivity. Qed.
+
+(* a history over a Scalar-valued generator: four spellings of 2000 and one of 2001 - two modules *)
+Definition ex_SU : list gen := [ {| g_name := "Res"; g_fields := [ {| f_name := "r"; f_dtype := DScalar; f_default := None |} ] |} ].
+Example C09_ex_scalar_history :
+  match model_hist ex_SU [] init [(0%nat, [Some (VPrefW (Dec.mkDec false 2 0) 3)]); (0%nat, [Some (VInt 2000)]);
+                                  (0%nat, [Some (VStr "2001")]); (0%nat, [Some (VPrefW (Dec.mkDec false 2000 (-3)) 3)])] with
+  | (st, obs) => map (fun o => match o with Some (_, m) => Some m | None => None end) obs = [Some 0; Some 0; Some 1; Some 0]%nat /\
+                 List.length (runs st) = 2%nat
+  end.
+Proof. vm_compute. split; reflexivity. Qed.
